@@ -121,3 +121,10 @@ CHECKS["C09"] = dict(
           "are served by a fake git (and built as real git repositories with two branches on a sample); `show` and `update --dry` run with and without the non-matching tags; the trace spec "
           "recomputes the start version with its own recogniser and PEP 440 order and checks maximality, membership, inertness of junk and freshness of the announced version."),
     note=_NOTE, ref="DESIGN.md section 6, C09")
+CHECKS["C11"] = dict(
+    technique="TLA+ spec of the porcelain status format and the dirty check (BVStatus, MC_C11) model-checked with TLC + trace validation of committing `update` runs on real git working trees",
+    text=("Design level: four files (two with a version pattern, one named like a status line) x the nine states git reports x --allow-dirty: the spec's fixed-column parser recovers "
+          "status and path(s) of every line incl. leading blanks and renames; NoSweep, DirtyBlocksUnlessAllowed, UntrackedOthersInert. Conformance: each status is produced by real git "
+          "operations (so the status text is git's own), `update --patch` runs with commit on; the trace spec reads the recorded porcelain lines itself and checks that a blocked update "
+          "aborts before modifying anything, that untracked unrelated files never block, and that the bump commit holds only the version change of pattern files."),
+    note=_NOTE, ref="DESIGN.md section 6, C11")
